@@ -7,6 +7,7 @@
 From Coq Require Import List ZArith NArith Bool Floats.
 From WTF Require Import Model.Validate Model.Text Model.Platform Model.Engine Model.Lru Model.CacheLayer
                         Proofs.EngineProofs Proofs.CacheProofs.
+From WTF Require Proofs.Corollaries.
 Import ListNotations.
 
 Section C05.
@@ -36,7 +37,7 @@ End C05.
    [partial] in the same sense as C20: the oracles (NLP analysis, TF-IDF ranking, fuzzy scores) are inputs. *)
 Theorem key_sound_engine_partial : forall E cmds q q' o nl,
   lower_ascii q = lower_ascii q' -> search_universal E cmds q o nl = search_universal E cmds q' o nl.
-Proof. intros E cmds q q' o nl H. apply search_depends_on_tokens. apply tokenize_case. exact H. Qed.
+Proof. exact Corollaries.search_same_lower. Qed.
 
 Print Assumptions cache_transparent.
 Print Assumptions cache_emptied_by_update.
